@@ -118,6 +118,36 @@ CHECKS = {
              "sizes. TLC cannot observe memory: the sanitizer is the monitor, hence level exploration.",
         note="Trusted: gcc 12 ASan/UBSan runtime; buffer sizes taken from the documented functions "
              "(dtw_settings_wps_length, dtw_distances_length). Known finding: dtw_expand_wps_slice on sub-ranges."),
+    "C12": dict(
+        level="model_checking", design="DESIGN.md 4/C12",
+        technique="TLA+ DBA spec: existential choice of optimal paths; theorems model-checked over all choices; recorded averages trace-validated by TLC",
+        text="Act M proves, for every collection/average/mask/settings of the slice and EVERY choice of one optimal path per "
+             "selected series, that the averaging step stays in the value range, does not increase the sum of squared DTW "
+             "costs and fixes identical series. Recorded results of dba (Python; Python averaging over C paths), "
+             "dtw_cc.dba/dba_ndim (list and matrix containers), direct dtw_dba_ptrs/_matrix calls and dba_loop are "
+             "rationalised exactly and accepted iff SOME choice of optimal paths explains them; loop steps <= max_it.",
+        note="Trusted: TLC; exact rationalisation of float averages (denominators <= 5000, 1e-11). Engines agree where "
+             "optimal paths are unique because both must be explained by the same unique choice."),
+    "C13": dict(
+        level="model_checking", design="DESIGN.md 4/C13",
+        technique="TLA+ SubseqAlign: relaxed-matrix last row proved equal to min over start points; matches and interleaved iterator histories trace-validated by TLC",
+        text="Act M proves that the last row of the (0,0,n,n)-relaxed matrix equals min_b DTW_pen(query, series[b..e]) for all "
+             "queries/series/penalties of the slice. Recorded: matching_function, SAMatch segment/path/value/distance for "
+             "EVERY end point, best_match, and 1-3 k-best generators with random (k, overlap, minlength, maxlength) "
+             "iterated interleaved over one alignment object and compared with the same generator alone on a fresh "
+             "object; both engines; TLC judges values, paths (MatchPathOK) and iterator postconditions (IterOK).",
+        note="Trusted: TLC, exact-domain encoding."),
+    "C14": dict(
+        level="model_checking", design="DESIGN.md 4/C14",
+        technique="TLA+ state machine of the heap/threshold/cache search model-checked against TopK over abstract distances; call histories on real objects trace-validated by TLC",
+        text="TLC explores the search loop (heap, running threshold handed down as max_dist, lower-bound skip) and the cache "
+             "for ALL abstract distance / lower-bound vectors (ties, infinities), k values, max_dist and call histories of "
+             "the slice: heap = TopK of the candidates seen, threshold never cuts a member of the answer, every answer = "
+             "fresh TopK; a self-test refutes the design that does not cut a cached answer at k. Real histories of 1-4 "
+             "calls (kbest_matches, best_match, align, *_fast, reset; k in {None,1,2,3,N,N+1}) on one object x use_lb x "
+             "use_c x max_dist/max_value x window/penalty/psi are judged call by call against TopK of the "
+             "specification's distances (indices up to ties).",
+        note="Trusted: TLC, exact-domain encoding."),
 }
 
 NOT_YET = {
